@@ -711,6 +711,52 @@ pub fn ill_sorted_variant(f: &BtorFile, t: &mut Tape) -> Option<(BtorFile, Strin
     if ops.is_empty() {
         return None;
     }
+    // two different array sorts in one expression: an array operand (of ite / eq / neq / read /
+    // write) replaced by a fresh state of an array sort with another index or element width
+    if t.chance(40) {
+        let sites: Vec<(usize, usize)> = ops
+            .iter()
+            .flat_map(|i| {
+                let LineKind::Op { args, .. } = &f.lines[*i].kind else { return vec![] };
+                args.iter()
+                    .enumerate()
+                    .filter(|(_, a)| matches!(f.lines[a.0].sort, Some(BSort::Arr(..))))
+                    .map(|(k, _)| (*i, k))
+                    .collect::<Vec<_>>()
+            })
+            .collect();
+        if !sites.is_empty() {
+            let (i, k) = sites[t.below(sites.len() as u32) as usize];
+            let LineKind::Op { args, .. } = &f.lines[i].kind else { return None };
+            let Some(BSort::Arr(iw, dw)) = f.lines[args[k].0].sort else { return None };
+            let (niw, ndw) = match t.below(3) {
+                0 => (iw + 1, dw),
+                1 => (iw, dw + 1 + t.below(8)),
+                _ => (iw + 1, dw + 1),
+            };
+            let mut g = f.clone();
+            let mut id = g.lines.iter().map(|l| l.id).max().unwrap_or(0) + 1;
+            let mut fresh = |kind: LineKind, sort: BSort, sort_line: Option<usize>, name: Option<String>| {
+                let l = Line { id, kind, sort: Some(sort), sort_line, name };
+                id += 1;
+                l
+            };
+            // inserted right before line i: [bitvec niw, bitvec ndw, array, state]
+            let l0 = fresh(LineKind::Sort(BSort::Bv(niw)), BSort::Bv(niw), None, None);
+            let l1 = fresh(LineKind::Sort(BSort::Bv(ndw)), BSort::Bv(ndw), None, None);
+            let text = format!("{} {}", l0.id, l1.id);
+            let l2 = fresh(LineKind::Sort(BSort::Arr(niw, ndw)), BSort::Arr(niw, ndw), None, Some(text));
+            let l3 = fresh(LineKind::State, BSort::Arr(niw, ndw), Some(i + 2), None);
+            insert_lines(&mut g, i, vec![l0, l1, l2, l3]);
+            if let LineKind::Op { args, .. } = &mut g.lines[i + 4].kind {
+                args[k] = (i + 3, false);
+            }
+            let what = format!("line {}: array operand {} replaced by an array of sort [{}->{}]", g.lines[i + 4].id, k, niw, ndw);
+            if type_check_file(&g).is_err() {
+                return Some((g, what));
+            }
+        }
+    }
     for _ in 0..6 {
         let i = ops[t.below(ops.len() as u32) as usize];
         let mut g = f.clone();
@@ -752,6 +798,33 @@ pub fn ill_sorted_variant(f: &BtorFile, t: &mut Tape) -> Option<(BtorFile, Strin
         }
     }
     None
+}
+
+/// Inserts lines before line index `at` and shifts every reference to a line index >= `at`.
+pub fn insert_lines(f: &mut BtorFile, at: usize, new: Vec<Line>) {
+    let n = new.len();
+    let sh = |x: &mut usize| {
+        if *x >= at {
+            *x += n;
+        }
+    };
+    for l in f.lines.iter_mut() {
+        if let Some(sl) = l.sort_line.as_mut() {
+            sh(sl);
+        }
+        match &mut l.kind {
+            LineKind::Op { args, .. } => args.iter_mut().for_each(|a| sh(&mut a.0)),
+            LineKind::Init { state, expr } | LineKind::Next { state, expr } => {
+                sh(state);
+                sh(&mut expr.0);
+            }
+            LineKind::Output(e) | LineKind::Bad(e) | LineKind::Constraint(e) => sh(&mut e.0),
+            _ => {}
+        }
+    }
+    for (k, l) in new.into_iter().enumerate() {
+        f.lines.insert(at + k, l);
+    }
 }
 
 pub fn random_value(t: &mut crate::tape::SplitMix, s: BSort) -> Val {
